@@ -323,7 +323,7 @@ NEAR_MISSES = ["1.2.3", "1.2.3.4.5", "256.1.1.1", "1.2.3.999", "1.2.3.4a", "a1.2
 
 
 @st.composite
-def token_line(draw, fams=(4, 6), cfg=None, max_tokens=5, allow_v4tail=False, allow_len=True, special4=None, min_addr=1):
+def token_line(draw, fams=(4, 6), cfg=None, max_tokens=5, allow_v4tail=False, allow_len=True, special4=None, min_addr=1, pool=None):
     """Returns {"segs": [...], "line": str}.  segs alternate separators and tokens:
     {"t": "sep"|"v4"|"v6"|"word"|"near", "s": text, "n": int (addresses only), "kind": spelling kind}"""
     segs = [{"t": "sep", "s": draw(st.sampled_from(["", "", " ", "  ", "\t"] + SEPARATORS[:12]))}]
@@ -335,6 +335,8 @@ def token_line(draw, fams=(4, 6), cfg=None, max_tokens=5, allow_v4tail=False, al
             fam = draw(st.sampled_from(fams))
             if seen and draw(st.integers(0, 4)) == 0:
                 fam, n = draw(st.sampled_from(seen))  # same address again, usually spelled differently
+            elif pool and draw(st.booleans()):
+                fam, n = draw(st.sampled_from(pool))  # (family, int) shared between lines / files
             elif fam == 4:
                 gens = [u32]
                 if cfg is not None and cfg.get("networks"):
